@@ -544,7 +544,20 @@ class Point:
         a = memo[x.args[0].uid] if x.args else None
         if name == 'sqrt':
             if a[1] != 0:
-                raise AnalysisError('sqrt of a non-real value (branch not modelled): ' + show(x.args[0]))
+                # complex argument: any root s with s*s = a (branch-agnostic; identities that hold for both branches are decided)
+                N = (a[0] * a[0] + a[1] * a[1]) % P
+                if legendre(N) != 1:
+                    raise Resample()
+                nrm = pow(N, (P + 1) // 4, P)
+                half = _inv(2)
+                xx = (a[0] + nrm) * half % P
+                if legendre(xx) != 1:
+                    xx = (a[0] - nrm) * half % P
+                if legendre(xx) != 1:
+                    raise Resample()
+                s0 = pow(xx, (P + 1) // 4, P)
+                s1 = a[1] * _inv(2 * s0 % P) % P
+                return (s0, s1)
             s = legendre(a[0])
             if s == 0: return (0, 0)
             if s > 0: return (pow(a[0], (P + 1) // 4, P), 0)
@@ -656,6 +669,7 @@ class Decider:
     def __init__(self, seed=0, k=3, positive=(), pins=None, nonzero=(), mask_hook=None):
         self.seed = seed; self.k = k; self.positive = list(positive); self.pins = pins or {}
         self.nonzero = list(nonzero)
+        self._mask_hook = mask_hook
         self.points: list[Point] = []
         tries = 0
         while len(self.points) < k:
@@ -684,7 +698,33 @@ class Decider:
                 out.append(pt.ev(e))
             except Resample:
                 out.append(None)
+        # points where e has a pole / an unmodelled branch: draw replacements (they also serve later queries)
+        tries = 0
+        while sum(v is not None for v in out) < self.k and tries < 60:
+            tries += 1
+            pt = self.extra_point()
+            if pt is None: continue
+            try:
+                out.append(pt.ev(e))
+            except Resample:
+                continue
         return out
+
+    def extra_point(self):
+        self._extra = getattr(self, '_extra', 0) + 1
+        pt = Point(self.seed * 1000003 + 500000 + self._extra, pins=self.pins, mask_hook=getattr(self, '_mask_hook', None))
+        try:
+            for pn in self.positive:
+                v = pt.ev(pn)
+                if v[1] != 0 or legendre(v[0]) != 1:
+                    return None
+            for nz in self.nonzero:
+                if pt.ev(nz) == (0, 0):
+                    return None
+        except Resample:
+            return None
+        self.points.append(pt)
+        return pt
 
     def is_zero(self, e):
         """True / False; raises AnalysisError when no point could evaluate e."""
@@ -709,6 +749,9 @@ class Decider:
 
 
 # ------------------------------------------------------------------ differentiation
+DIFF_RULES = {}      # function-atom name -> rule(node, d) returning d(node)/dx, d = derivative of a sub-node
+
+
 def diff(n, x, memo=None):
     """d n / d x  for atom x (by name)."""
     memo = {} if memo is None else memo
@@ -752,6 +795,8 @@ def diff(n, x, memo=None):
             elif nm == 'log': r = div(da, a)
             elif nm == 'abs': r = mul(fn('sign', a), da)
             elif nm == 'sign': r = ZERO
+            elif nm in DIFF_RULES:
+                r = DIFF_RULES[nm](n, d)
             else:
                 raise AnalysisError(f'no derivative rule for {nm}')
         else:
@@ -814,3 +859,27 @@ def specialize(n, hook, memo=None):
         memo[n.uid] = r
         return r
     return s(n)
+
+
+# ------------------------------------------------------------------ linear algebra over GF(p^2) at sample points
+def rank_gf(rows):
+    """rank of a matrix given as list of rows of (re, im) pairs mod P"""
+    M = [list(r) for r in rows]
+    rk = 0
+    ncol = len(M[0]) if M else 0
+    for c in range(ncol):
+        piv = None
+        for r in range(rk, len(M)):
+            if M[r][c] != (0, 0):
+                piv = r; break
+        if piv is None: continue
+        M[rk], M[piv] = M[piv], M[rk]
+        inv = c_inv(M[rk][c])
+        M[rk] = [c_mul(v, inv) for v in M[rk]]
+        for r in range(len(M)):
+            if r != rk and M[r][c] != (0, 0):
+                f = M[r][c]
+                M[r] = [((v[0] - c_mul(f, w)[0]) % P, (v[1] - c_mul(f, w)[1]) % P) for v, w in zip(M[r], M[rk])]
+        rk += 1
+        if rk == len(M): break
+    return rk
